@@ -63,14 +63,23 @@ const (
 )
 
 type cfg struct {
-	mode  string
-	async bool
-	exec  string
-	rbs   int
-	cap   int
-	typ   string
-	np    int
-	udpto int // UDPReadTimeout in ms (0: the engine's default of 120 s, never reached in a case)
+	mode   string
+	async  bool
+	exec   string
+	rbs    int
+	cap    int
+	typ    string
+	np     int
+	client bool // typ udpc: a DIALED UDP conn (datagram semantics, everything is handed over on the conn itself)
+	udpto  int  // UDPReadTimeout in ms (0: the engine's default of 120 s, never reached in a case)
+}
+
+// typName: the transport as the case line names it
+func (c cfg) typName() string {
+	if c.client {
+		return "udpc"
+	}
+	return c.typ
 }
 
 func (c cfg) isAsync() bool { return c.async && c.mode != "lt" }
@@ -354,9 +363,13 @@ func newSess(c cfg) (*sess, error) {
 	case "unix":
 		nc = nbio.VerifNewConn(s.fd, nbio.ConnTypeUnix)
 	case "udp":
-		nc = nbio.VerifNewUDPServer(s.fd)
-		s.ids[nc] = 0
-		s.nextID = 1
+		if c.client {
+			nc = nbio.VerifNewUDPClient(s.fd) // announced like a stream conn: id 0 from the open notification
+		} else {
+			nc = nbio.VerifNewUDPServer(s.fd)
+			s.ids[nc] = 0
+			s.nextID = 1
+		}
 	}
 	s.c = nc
 	if _, err := g.AddConn(nc); err != nil {
@@ -461,6 +474,13 @@ func (s *sess) onData(nc *nbio.Conn, data []byte) {
 	}
 	if string(want) != string(data) {
 		s.oracle = append(s.oracle, fmt.Sprintf("c02-delivery datagram %d: got %d bytes, sent %d (boundaries/content differ)", s.delD-1, len(data), len(d.data)))
+	}
+	if s.client {
+		// a dialed UDP conn: every datagram of its peer on the conn itself
+		if nc != s.c {
+			s.oracle = append(s.oracle, "c02-udp-demux datagram of a dialed UDP conn handed to a different *Conn")
+		}
+		return
 	}
 	s.attrLog = append(s.attrLog, fmt.Sprintf("%s>%d", d.addr, id))
 	conclusive := true
@@ -664,7 +684,7 @@ func (s *sess) state(e *lp.Exec, what string) {
 		s.closedSeen = true
 		s.qAtClose = q
 		if errClass(cerr) == "eof" && s.eof && !s.rerr && q > 0 {
-			e.Oracle("c02-stranded", "closed on peer half-close with %d unread in the kernel queue mode=%s async=%v typ=%s cap=%d rbs=%d", q, s.mode, s.isAsync(), s.typ, s.cap, s.rbs)
+			e.Oracle("c02-stranded", "closed on peer half-close with %d unread in the kernel queue mode=%s async=%v typ=%s cap=%d rbs=%d", q, s.mode, s.isAsync(), s.typName(), s.cap, s.rbs)
 		}
 	}
 	quiet := ts == "none" && !s.held
@@ -679,7 +699,7 @@ func (s *sess) state(e *lp.Exec, what string) {
 			will = reg && s.armed && s.edge
 		}
 		if s.readable() && !will {
-			e.Oracle("c02-stranded", "quiescent with q=%d eof=%v err=%v unread and no readiness will be re-reported mode=%s async=%v typ=%s arm=%v edge=%v", q, s.eof, s.rerr, s.mode, s.isAsync(), s.typ, s.armed, s.edge)
+			e.Oracle("c02-stranded", "quiescent with q=%d eof=%v err=%v unread and no readiness will be re-reported mode=%s async=%v typ=%s arm=%v edge=%v", q, s.eof, s.rerr, s.mode, s.isAsync(), s.typName(), s.armed, s.edge)
 		}
 		if s.typ != "udp" {
 			s.mu.Lock()
@@ -787,7 +807,7 @@ func (s *sess) runDef(e *lp.Exec) {
 }
 
 func (s *sess) stuck(e *lp.Exec, why string) {
-	e.Oracle("c02-spin", "%s mode=%s async=%v exec=%s typ=%s", why, s.mode, s.isAsync(), s.exec, s.typ)
+	e.Oracle("c02-spin", "%s mode=%s async=%v exec=%s typ=%s", why, s.mode, s.isAsync(), s.exec, s.typName())
 	s.dead = true
 }
 
@@ -1104,9 +1124,12 @@ func exec(e *lp.Exec) {
 				continue
 			}
 			c := cfg{mode: f[1], async: f[2] == "1", exec: f[3], typ: f[6]}
+			if c.typ == "udpc" && c.exec != "real" {
+				c.typ, c.client = "udp", true
+			}
 			if len(f) == 9 {
 				c.udpto, _ = strconv.Atoi(f[8])
-				if c.udpto <= 0 || c.typ != "udp" || c.exec != "def" {
+				if c.udpto <= 0 || c.typ != "udp" || c.client || c.exec != "def" {
 					e.P("bad-op")
 					continue
 				}
@@ -1139,9 +1162,9 @@ func exec(e *lp.Exec) {
 			}
 			key.Reset()
 			nontrivial = false
-			fmt.Fprintf(&key, "%s/%v/%s/%d/%d/%s|", c.mode, c.isAsync(), c.exec, c.rbs, c.cap, c.typ)
+			fmt.Fprintf(&key, "%s/%v/%s/%d/%d/%s|", c.mode, c.isAsync(), c.exec, c.rbs, c.cap, c.typName())
 			e.Count("mode", c.mode)
-			e.Count("typ", c.typ)
+			e.Count("typ", c.typName())
 			if c.isAsync() {
 				e.Count("read", "async-"+c.exec)
 			} else {
@@ -1493,7 +1516,7 @@ func sizeClass(n, rbs, cap int) int {
 
 func genAddr(g *lp.Gen, pool []string) string {
 	if g.Chance(1, 2) {
-		return pool[g.Intn(3)] // a few hot remotes, so sessions are reused
+		return pool[g.Intn(3)%len(pool)] // a few hot remotes, so sessions are reused
 	}
 	return pool[g.Intn(len(pool))]
 }
@@ -1539,8 +1562,16 @@ func gen(g *lp.Gen) {
 		}
 		cp := g.PickInt(1, 3, 1000000)
 		typ := g.Pick("tcp", "unix", "udp")
+		client := false
+		if typ == "udp" && g.Chance(1, 3) {
+			client = true // a dialed UDP conn: one peer, datagrams on the conn itself
+		}
 		np := g.PickInt(1, 2, 4)
-		g.P("C %s %d %s %d %d %s %d", mode, b2i(async), exec, rbs, cp, typ, np)
+		if client {
+			g.P("C %s %d %s %d %d udpc %d", mode, b2i(async), exec, rbs, cp, np)
+		} else {
+			g.P("C %s %d %s %d %d %s %d", mode, b2i(async), exec, rbs, cp, typ, np)
+		}
 		nops := 4 + g.Intn(12)
 		isAsync := async && mode != "lt"
 		// address pool for UDP: near-collisions on purpose (same ip/other port, same port/other ip, v4 vs v6)
@@ -1550,6 +1581,9 @@ func gen(g *lp.Gen) {
 			pool = []string{"6:00000000000000000000000000000001:4000:0", "6:00000000000000000000000000000001:4000:1",
 				"6:00000000000000000000000000000001:4001:0", "6:fe800000000000000000000000000001:4000:2",
 				"6:00000000000000000000ffff7f000001:4000:0", "6:7f000001000000000000000000000000:4000:0"}
+		}
+		if client {
+			pool = []string{"4:7f000001:4000"}
 		}
 		eofDone := false
 		// side conns (stream cases whose read tasks are not parked): further conns of the same engine with payload
@@ -1770,8 +1804,8 @@ func realCase(e *lp.Exec, c cfg) {
 		return n
 	}
 	waitFor := func(want int, d time.Duration) bool {
-		t0 := time.Now()
-		for time.Since(t0) < d {
+		// d of 1 ms sleeps, counted (a sleep oversleeps on a loaded machine: the bound stretches with the load)
+		for i := 0; i < int(d/time.Millisecond); i++ {
 			if total() >= want {
 				return true
 			}
@@ -1780,14 +1814,19 @@ func realCase(e *lp.Exec, c cfg) {
 		return total() >= want
 	}
 	idle := func() {
-		// no input pending: the readers must be idle (generous bound: half a core over the window; re-measured once)
-		for try := 0; try < 2; try++ {
-			c0 := cpuTime()
+		// no input pending: the readers must be idle. Judged by what the engine DOES on its real descriptors — poller
+		// wake-ups (epoll_wait returning events) and read calls, counted by the shim — not by CPU time: an idle engine makes
+		// none, a spinning poller / read task makes thousands per second; the load of the machine only slows a spinner
+		// down. Spinning = more than 50 such calls in each of five consecutive 60 ms windows (CPU time is printed as a hint)
+		for try := 0; try < 5; try++ {
+			c0, w0 := cpuTime(), time.Now()
+			k0, r0 := vsys.RealActivity()
 			time.Sleep(60 * time.Millisecond)
-			if used := cpuTime() - c0; used < 30*time.Millisecond {
+			k1, r1 := vsys.RealActivity()
+			if (k1-k0)+(r1-r0) <= 50 {
 				return
-			} else if try == 1 {
-				e.Oracle("c02-spin", "%s: %v CPU in a 60ms window with no input pending", tag, used)
+			} else if try == 4 {
+				e.Oracle("c02-spin", "%s: no input pending, yet %d poller wake-ups and %d read calls on real descriptors in a %v window (fifth window in a row; %v CPU)", tag, k1-k0, r1-r0, time.Since(w0).Round(time.Millisecond), cpuTime()-c0)
 			}
 		}
 	}
@@ -1887,8 +1926,7 @@ func realCase(e *lp.Exec, c cfg) {
 	case *net.UnixConn:
 		_ = t.CloseWrite()
 	}
-	t0 := time.Now()
-	for time.Since(t0) < 5*time.Second {
+	for i := 0; i < 5000; i++ { // counted 1 ms sleeps: stretches with the load
 		mu.Lock()
 		n := len(closed)
 		mu.Unlock()
@@ -1941,7 +1979,7 @@ func realCase(e *lp.Exec, c cfg) {
 		}
 		defer pc2.Close()
 		var sc *nbio.Conn
-		for t0 := time.Now(); time.Since(t0) < 3*time.Second && sc == nil; time.Sleep(time.Millisecond) {
+		for i := 0; i < 3000 && sc == nil; i, _ = i+1, func() bool { time.Sleep(time.Millisecond); return true }() {
 			mu.Lock()
 			if len(opened) > n0 {
 				sc = opened[len(opened)-1]
@@ -1967,7 +2005,7 @@ func realCase(e *lp.Exec, c cfg) {
 			_ = t.CloseWrite()
 		}
 		ok := false
-		for t0 := time.Now(); time.Since(t0) < 3*time.Second && !ok; time.Sleep(time.Millisecond) {
+		for i := 0; i < 3000 && !ok; i, _ = i+1, func() bool { time.Sleep(time.Millisecond); return true }() {
 			mu.Lock()
 			_, ok = closed[sc]
 			mu.Unlock()
